@@ -979,6 +979,22 @@ def classify_divergence(w, live):
     for c, f in live.items():
         if f["snaps"] == 0 and w.meta.get("retention", 5) < 3:
             return "fork-deeper-than-retention"
+    # ONE commit circulates under TWO wrappers (a re-wrapped copy: the wrapper timestamp / id are not authenticated) and a sibling's
+    # MIP-03 key lies strictly between the two wrappers' keys: against that sibling the commit wins under one wrapper and loses under
+    # the other, so which branch a client ends on depends on which copy it applied first — without any refusal in between (the
+    # rewrapped-commit mechanism in its "the later-stamped copy was applied first, a worse sibling then wins" form) — and it was a live
+    # client that applied the copy / the original of that pair
+    key = lambda e: (e["ts"], e["idnum"])
+    for k2, e2 in commits.items():
+        o = e2.get("rewrap_of")
+        if o is None or o not in commits:
+            continue
+        lo, hi = sorted([key(commits[o]), key(e2)])
+        for n3, e3 in commits.items():
+            if n3 in (k2, o) or e3.get("rewrap_of") in (o, k2) or e3.get("parent_token") != commits[o].get("parent_token"):
+                continue
+            if lo < key(e3) < hi and any((c, x) in applied_at for c in live for x in (k2, o)):
+                return "rewrapped-commit-rollback"
     return "divergence-unclassified"
 
 def run_histories(seed, n, tier, gen=gen_race_history):
